@@ -368,9 +368,19 @@ func propLinearizable(c *Case) {
 	}
 
 	prefill := 0
-	if !evict && c.Weighted("prefill", 24, 1) == 1 {
-		prefill = 12000
-		c.Class("prefilled-12000")
+	sameShardMass := 0
+
+	if !evict {
+		switch c.Weighted("prefill", 24, 1, 2) {
+		case 1:
+			prefill = 12000
+			c.Class("prefilled-12000")
+		case 2:
+			// hundreds of long-expired entries in the shard of the slot keys "a" / "s..": the first cleanup cycle of
+			// the concurrent phase removes most of that bucket while the slot keys are written and deleted
+			prefill, sameShardMass = 1, []int{200, 600}[c.Pick("mass", 2)]
+			c.Class("prefilled-same-shard-long-expired-mass")
+		}
 	}
 
 	c.Bubble(func() {
@@ -381,7 +391,11 @@ func propLinearizable(c *Case) {
 
 		// now and then the concurrent phase runs on top of a large population (batch operations of
 		// big caches may take other code paths); the filler keys belong to no slot
-		if prefill > 0 {
+		for _, k := range sameShardFill(sameShardMass) {
+			_ = be.Write(ttlCtx(-2*time.Hour), k, "fill")
+		}
+
+		if prefill > 1 {
 			for i := 0; i < prefill; i++ {
 				_ = be.Write(bg, []byte(fmt.Sprintf("fill-%05d", i)), "fill")
 			}
